@@ -88,6 +88,17 @@ def handlers : List (String × Handler) := [
           parserCallSpecial.any (fun s => s.1 == kv.1 && parserCall.contains s))) with
       | some kv => "ok " ++ encK kv.1
       | none => "none"
+    | [.atom "paths"] =>
+      /- first path-valued field whose argparse type is not a string type (beyond the reviewed FileType options) or whose
+         validator is not the reviewed one -/
+      match pathFields.find? (fun f =>
+        !((cliOpensRawString.contains f.1 || actionTypes.all (fun a => a.1 != f.1 || strTypes.contains a.2)) &&
+          fieldValidators.lookup f.1 == some [pathValidator f.2] &&
+          (validatorBranches.lookup (pathValidator f.2)) == reviewedValidatorBranches.lookup (pathValidator f.2))) with
+      | some f => "ok " ++ encK f.1
+      | none => match pathFields.find? (fun f => !reviewedPathFields.contains f) with
+        | some f => "ok " ++ encK f.1
+        | none => "none"
     | _ => "err args")
 ]
 end Dcg.Driver.Config
